@@ -5,6 +5,8 @@ QT   every storage location / accessor on the weight path has a floating-point t
 QD   homogeneity typing: every coefficient put into the matrix and every right-hand-side increment
      is homogeneous of degree exactly 1 in (net weights, penalty strengths); so scaling all of them by
      a common factor scales (A, b) to (kA, kb) and leaves the solution unchanged
+QH   every comparison in MatrixCreator has sides of equal degree (or a literal 0), and every Eigen solver setting
+     (setTolerance, setMaxIterations) has degree 0: branches and stopping rule do not depend on the scale of the weights
 QR   the only degree-0 term (diagonal regulariser) touches only unknowns no weighted term mentions
 PV   provenance: the weight given to Circuit::addNet reaches NetModel::netWeight_ unchanged
 """
@@ -59,14 +61,14 @@ class Degrees:
         return self.func.unit.by_id.get(vid)
 
     def var_degree(self, vid, name):
-        if vid in self.p1:
-            return 1
         if vid in self.memo:
             return self.memo[vid]
-        self.memo[vid] = 0   # cycle guard (loop-carried): resolved below
+        self.memo[vid] = 1 if vid in self.p1 else 0   # cycle guard (loop-carried): resolved below
         d = self.var_decl(vid)
         degs = set()
-        if d is not None:
+        if vid in self.p1:
+            degs.add(1)
+        elif d is not None:
             if d.get("kind") in ("BindingDecl",):
                 degs.add(0)
             init = children(d) if d.get("kind") == "VarDecl" else []
@@ -101,6 +103,11 @@ class Degrees:
     def degree(self, c):
         t = c[0]
         if t == "lit":
+            try:
+                if float(str(c[1]).rstrip("fFlLuU")) == 0.0:
+                    return None      # literal zero is homogeneous of every degree
+            except ValueError:
+                pass
             return 0
         if t == "var":
             return self.var_degree(c[1], c[2])
@@ -108,7 +115,9 @@ class Degrees:
             b = c[1]
             if b[0] == "var" and b[1] in self.v1:
                 return 1
-            return self.degree(b) if b[0] in ("var",) and False else 0
+            if b[0] == "field":
+                return field_degree(self.ctx, b[1])
+            return 0
         if t == "call":
             q = c[1]
             if q in WEIGHT_SOURCES:
@@ -116,37 +125,58 @@ class Degrees:
             name = q.split("::")[-1]
             args = [a for a in c[3:]]
             if name in ("max", "min", "fmax", "fmin"):
-                ds = {self.degree(a) for a in args}
-                return ds.pop() if len(ds) == 1 else "mix"
+                ds = {self.degree(a) for a in args} - {None}
+                return (ds.pop() if ds else None) if len(ds) <= 1 else "mix"
             if name in ("abs", "fabs", "round", "floor", "ceil"):
                 return self.degree(args[0]) if args else 0
             if name in ("sqrt",):
                 d = self.degree(args[0]) if args else 0
-                return 0 if d == 0 else "mix"
-            # any other call: degree 0 if no argument carries weight
-            ds = {self.degree(a) for a in args} | ({self.degree(c[2])} if c[2] not in (("none",), ("this",)) and c[2][0] != "field" else set())
-            if ds <= {0}:
+                return d if d in (0, None) else "mix"
+            obj = c[2] if c[2] not in (("none",), ("this",)) else None
+            if name in ("norm", "sum", "mean", "maxCoeff", "minCoeff", "lpNorm", "stableNorm", "data", "begin", "end", "cbegin", "cend",
+                        "front", "back", "at") and obj is not None:
+                return self.degree(obj)
+            if name in ("size", "rows", "cols", "empty", "nonZeros"):
+                return 0
+            if name == "squaredNorm" and obj is not None:
+                d = self.degree(obj)
+                return d * 2 if isinstance(d, int) else d
+            # any other call: degree 0 if neither the object nor an argument carries weight
+            ds = {self.degree(a) for a in args} | ({self.degree(obj)} if obj is not None else set())
+            if ds <= {0, None}:
                 return 0
             return "mix"
         if t == "bin":
             op, a, b = c[1], self.degree(c[2]), self.degree(c[3])
+            if op in ("<", ">", "<=", ">=", "==", "!=", "&&", "||"):
+                return 0
             if "mix" in (a, b):
                 return "mix"
             if op == "*":
-                return a + b
+                return None if a is None or b is None else a + b
             if op == "/":
-                return a - b
+                if b is None:
+                    return "mix"
+                return None if a is None else a - b
             if op in ("+", "-"):
+                if a is None:
+                    return b
+                if b is None:
+                    return a
                 return a if a == b else "mix"
-            if op in ("<", ">", "<=", ">=", "==", "!=", "&&", "||"):
-                return 0
             return "mix" if (a or b) else 0
         if t == "un":
             return self.degree(c[2])
         if t == "cond":
             a, b = self.degree(c[2]), self.degree(c[3])
+            if a is None:
+                return b
+            if b is None:
+                return a
             return a if a == b else "mix"
-        if t in ("field", "enum", "this", "none", "decl", "defaultarg", "sizeof"):
+        if t == "field":
+            return field_degree(self.ctx, c[1])
+        if t in ("enum", "this", "none", "decl", "defaultarg", "sizeof"):
             return 0
         if t in ("deref", "elem"):
             return self.degree(c[1])
@@ -156,14 +186,64 @@ class Degrees:
         return 0
 
 
+_FIELD_MEMO = {}
+DEG1_FIELDS = ("MatrixCreator::rhs_", "MatrixCreator::mat_")
+
+
+def field_degree(ctx, q):
+    """Homogeneity degree of a data member: rhs_ and mat_ are degree 1 by rule QD itself; an arithmetic member gets the common
+    degree of everything its class assigns to it (constructor initialisers included); other members carry no weight."""
+    if q in (CQ + f for f in DEG1_FIELDS):
+        return 1
+    key = (id(ctx), q)
+    if key in _FIELD_MEMO:
+        return _FIELD_MEMO[key]
+    _FIELD_MEMO[key] = 0
+    owner = q.rsplit("::", 1)[0]
+    if owner != CQ + "MatrixCreator":
+        return 0
+    degs = set()
+    for f in ctx.prog.funcs.values():
+        if f.cls != owner:
+            continue
+        deg = None
+        for ci_ in f.ctor_inits:
+            an = ci_.get("anyInit") or {}
+            d = f.unit.by_id.get(an.get("id")) if an.get("id") else None
+            if d is not None and d.get("_q") == q and children(ci_):
+                deg = deg or degrees_for(ctx, f)
+                degs.add(deg.degree(canon(children(ci_)[-1], refs=False)))
+        if f.body is None:
+            continue
+        for x in walk(f.body):
+            if x.get("kind") in ("BinaryOperator", "CompoundAssignOperator") and x.get("opcode") in ("=", "+=", "-=", "*=", "/="):
+                l, r = children(x)
+                lc = canon(l, refs=False)
+                if lc == ("field", q, ("this",)):
+                    deg = deg or degrees_for(ctx, f)
+                    dr = deg.degree(canon(r, refs=False))
+                    if x.get("opcode") in ("*=", "/="):
+                        if dr not in (0, None):
+                            degs.add("mix")
+                    else:
+                        degs.add(dr)
+    degs.discard(None)
+    res = 0 if not degs else (degs.pop() if len(degs) == 1 else "mix")
+    _FIELD_MEMO[key] = res
+    return res
+
+
 def run(ctx, rep, tier):
     prog, eff = ctx.prog, ctx.eff
+    _FIELD_MEMO.clear()
+    rep.rule("QH", "comparisons and solver settings on the weight path are scale-free: equal degrees compared, degree-0 settings", 10)
     rep.rule("QT", "weight path is floating-point end to end; no float-to-int conversion of a weight-carrying value", 6)
     rep.rule("QD", "matrix coefficients, rhs increments and pin weights are homogeneous of degree 1 in (weights, penalties)", 20)
     rep.rule("QR", "the degree-0 regulariser only touches rows without any weighted entry", 3)
     rep.rule("PV", "net weight provenance Circuit -> NetModel::netWeight_ (explicit forwarding, no default)", 5)
     check_qt(ctx, rep)
     check_qd(ctx, rep)
+    check_qh(ctx, rep)
     check_pv(ctx, rep)
 
 
@@ -320,13 +400,21 @@ def check_qd(ctx, rep):
                 l, r = children(x)
                 lc = canon(l)
                 if lc[0] == "index" and lc[1] == ("field", mc + "::hasNonZero_", ("this",)) and canon(r) != ("lit", "0"):
-                    n = cfg_of(f).node_for(x)
-                    if n is not None and not [e for e in cfg_of(f).dom_edges(n) if True] or True:
+                    # the mark must happen whenever the entry is made: its guards are a subset of every entry's guards
+                    mg = {(gc, val) for gc, val, _a, asr in (ctx.guards(f, x) or []) if not asr}
+                    ok = True
+                    for ex, er, _ec in entries:
+                        if er != lc[2]:
+                            continue
+                        eg = {(gc, val) for gc, val, _a, asr in (ctx.guards(f, ex) or []) if not asr}
+                        if not mg <= eg:
+                            ok = False
+                    if ok:
                         marked.add(lc[2])
         missing = [r for r in rows if r not in marked]
         if missing:
             rep.violation("QR", f.decl, f, "weighted matrix rows not recorded in hasNonZero_",
-                          "rows %s receive weighted entries but are not marked: finalize() would add the absolute 1e-8 term to them" % [pretty(m) for m in missing],
+                          "rows %s receive weighted entries but are not (unconditionally) marked: finalize() would add the absolute 1e-8 term to them" % [pretty(m) for m in missing],
                           key="%s|rows not marked non-zero" % fs)
         else:
             rep.holds("QR", f.decl, f, "rows %s marked in hasNonZero_" % sorted(pretty(r) for r in rows))
@@ -352,6 +440,49 @@ def check_regulariser(ctx, rep, f, x, vals, what):
         rep.violation("QR", x, f, what,
                       "weight-free (degree 0) diagonal term not restricted to rows without weighted entries: an absolute spring "
                       "that does not scale with the weights", key="%s|unguarded degree-0 diagonal term" % f.short)
+
+
+# ---- QH: scale-free comparisons and solver settings ----------------------------------------
+
+RELOPS = ("<", ">", "<=", ">=", "==", "!=")
+
+
+def check_qh(ctx, rep):
+    prog = ctx.prog
+    mc = CQ + "MatrixCreator"
+    ncmp = 0
+    for f in prog.funcs.values():
+        if f.cls != mc or f.body is None:
+            continue
+        deg = degrees_for(ctx, f)
+        for x in walk(f.body):
+            k = x.get("kind")
+            if k == "BinaryOperator" and x.get("opcode") in RELOPS:
+                l, r = children(x)
+                a, b = deg.degree(canon(l, refs=False)), deg.degree(canon(r, refs=False))
+                ncmp += 1
+                what = "%s: comparison %s" % (f.short, pretty(canon(x))[:80])
+                if a is None or b is None or a == b and a != "mix":
+                    rep.holds("QH", x, f, what, "both sides have degree %s" % (a if a is not None else b))
+                else:
+                    rep.violation("QH", x, f, what, "sides have homogeneity degrees %s and %s: a weight-scaled quantity is tested against an "
+                                  "absolute one, so scaling all weights changes the branch taken" % (a, b),
+                                  key="%s|comparison across degrees" % f.short)
+            elif k == "CXXMemberCallExpr":
+                ci = callee_info(x)
+                if ci and ci["name"].startswith("set") and ci["obj"] is not None and "Eigen::" in (desugared(ci["obj"]) or qt(ci["obj"]) or ""):
+                    if ci["name"] == "setFromTriplets":
+                        continue
+                    for a in ci["args"]:
+                        d = deg.degree(canon(a, refs=False))
+                        ncmp += 1
+                        what = "%s: solver setting %s(%s)" % (f.short, ci["name"], pretty(canon(a))[:60])
+                        if d in (0, None):
+                            rep.holds("QH", x, f, what, "degree 0: independent of the scale of the weights")
+                        else:
+                            rep.violation("QH", x, f, what, "the setting has homogeneity degree %s in (weights, penalties): the stopping rule "
+                                          "changes when all weights are scaled" % d, key="%s|solver setting depends on the weight scale" % f.short)
+    rep.extra["qh_sites"] = ncmp
 
 
 # ---- PV --------------------------------------------------------------------------
